@@ -93,6 +93,9 @@ func deserializeParams(batch arrow.RecordBatch, target reflect.Type) (out reflec
 		if binCol, ok := batch.Column(0).(*array.Binary); ok && binCol.Len() > 0 && !binCol.IsNull(0) {
 			data := binCol.Value(0)
 			if len(data) > 0 {
+				if _, err := checkIPCStreamFraming(data); err != nil {
+					return reflect.Value{}, fmt.Errorf("unwrapping request IPC: %w", err)
+				}
 				innerReader, err := ipc.NewReader(bytes.NewReader(data))
 				if err != nil {
 					return reflect.Value{}, fmt.Errorf("unwrapping request IPC: %w", err)
